@@ -487,6 +487,10 @@ func runSCIONServer(ctx context.Context, log *slog.Logger, mtrcs *scionServerMet
 						continue
 					}
 					cookie := encryptedCookie.Encode()
+					if len(cookies) == nts.ResponseCookieCapacity(len(ntsreq.UniqueID.ID), len(cookie)) {
+						// as many cookies as fit into the response
+						break
+					}
 					cookies = append(cookies, cookie)
 					addedCookie = true
 				}
